@@ -42,6 +42,10 @@ DatasetsAgg4s == DatasetsAgg(4, XDomSmall \cup {XT("zz")})
 DatasetsGroup4s == {[j \in 1..4 |-> Ev(j, 1000 * j, IF j % 2 = 1 THEN XI(3) ELSE XI(-2), gs[j])] : gs \in SeqsOf(4, GDom \ {GS("k2")})}
 DatasetsBucket4s == {[j \in 1..4 |-> Ev(j, ts[j], XI(1), GS("k1"))] : ts \in SeqsOf(4, {0, 999, 1000, 2000, 3500})}
 SpansAll == {1000, 1500, 2000, 700}
-OriginsAll == {0, -10, -1000, -999}
+(* align times: range start before the data (timechart), epoch (bin), and aligntime= inside / between / after the event times *)
+OriginsAll == {0, -10, -1000, -999, 300, 1300, 2300, 3500, 5300}
+(* exported for `bin span=.. aligntime=..`: spans the bin grammar accepts together with aligntime, align offsets before/inside/after *)
+AlignSpans == {500, 1000, 2000, 60000}
+AlignTimes == {-700, 300, 1300, 2300, 3500, 5300}
 SpansNone == {}
 =============================================================================
